@@ -35,6 +35,7 @@ import (
 	"time"
 
 	"github.com/alicebob/miniredis/v2"
+	"github.com/gotid/god/lib/load"
 	"github.com/gotid/god/lib/logx"
 	"github.com/gotid/god/lib/store/redis"
 	"github.com/gotid/god/rpc/internal/mock"
@@ -62,13 +63,16 @@ type c02RLCase struct {
 	H    bool   `json:"h,omitempty"`    // ServerConfig.Health: the grpc health service is registered
 	A    int    `json:"a,omitempty"`    // 0: Auth off; 1: ServerConfig.Auth (redis = miniredis of this process); 2: Auth + StrictControl
 	X    int    `json:"x,omitempty"`    // pass-through application interceptors added with Server.AddUnaryInterceptors after NewServer
+	S    bool   `json:"s,omitempty"`    // ServerConfig.CpuThreshold 900 in a process whose shedders are switched off (load.Disable, as Mode dev does): the shedding interceptor is in the chain, its shedder never drops
 	O    bool   `json:"o,omitempty"`    // one more pass-through interceptor installed with Server.AddOptions(grpc.ChainUnaryInterceptor(..))
 	K    string `json:"k"`              // ok | err | panic | block | blockerr | blockpanic
 	Code int    `json:"code,omitempty"` // err: grpc code of the handler's own error
 	PV   int    `json:"pv,omitempty"`   // panic kinds, see c02RLPanic
 }
 
-func (c c02RLCase) confKey() string { return fmt.Sprintf("t%d/h%v/a%d/x%d/o%v", c.T, c.H, c.A, c.X, c.O) }
+func (c c02RLCase) confKey() string {
+	return fmt.Sprintf("t%d/h%v/a%d/x%d/o%v/s%v", c.T, c.H, c.A, c.X, c.O, c.S)
+}
 
 type c02RLBehaviour struct {
 	id      int
@@ -179,7 +183,10 @@ func (c02RLService) Deposit(ctx context.Context, req *mock.DepositRequest) (*moc
 	return &mock.DepositResponse{Ok: true}, nil
 }
 
-func init() { logx.Disable() }
+func init() {
+	logx.Disable()
+	load.Disable() // as ServerConfig.Mode dev/test/rt/pre does: every shedder of this process is a no-op
+}
 
 func c02RLNew(c c02RLCase) *c02RLBehaviour {
 	b := &c02RLBehaviour{id: int(atomic.AddInt64(&c02RLNextID, 1)), c: c}
@@ -222,7 +229,11 @@ func c02RLStartOnce(c c02RLCase) (mock.DepositServiceClient, grpc_health_v1.Heal
 	}
 	addr := l.Addr().String()
 	l.Close()
-	conf := ServerConfig{ListenOn: addr, Timeout: c.T, Health: c.H} // CpuThreshold 0: no shedder (it reads the machine's real CPU load); no etcd
+	conf := ServerConfig{ListenOn: addr, Timeout: c.T, Health: c.H} // no etcd
+	if c.S {
+		// shedders are no-ops in this process (init: load.Disable); a real one reads the machine's CPU load
+		conf.CpuThreshold, conf.Mode = 900, "dev"
+	}
 	if c.A > 0 {
 		raddr, err := c02RLRedis()
 		if err != nil {
@@ -327,12 +338,15 @@ func c02RLRun(c c02RLCase) (v kit.Verdict) {
 	}
 	cl := sv.cl
 	T := time.Duration(c.T) * time.Millisecond
-	srvName := fmt.Sprintf("{Timeout %v, Health %v, Auth %d, %d added interceptors, interceptor option %v}", T, c.H, c.A, c.X, c.O)
+	srvName := fmt.Sprintf("{Timeout %v, Health %v, Auth %d, %d added interceptors, interceptor option %v, shedding interceptor (no-op shedder) %v}", T, c.H, c.A, c.X, c.O, c.S)
 	cls := map[string]bool{"kind-" + c.K: true, fmt.Sprintf("server-timeout-%v", T): true,
 		fmt.Sprintf("server-health-%v", c.H): true, fmt.Sprintf("server-auth-%d", c.A): true,
 		fmt.Sprintf("server-added-interceptors-%d", c.X): true}
 	if c.O {
 		cls["server-interceptor-option"] = true
+	}
+	if c.S {
+		cls["server-shedding-interceptor(nop shedder)"] = true
 	}
 	if c.H && (c.X > 0 || c.A > 0) {
 		cls["health-on+interceptors-after-timeout"] = true
@@ -353,7 +367,7 @@ func c02RLRun(c c02RLCase) (v kit.Verdict) {
 	// two calls that must succeed: breaker padding, and proof that the server survived what came before
 	for i := 0; i < 2; i++ {
 		r := c02RLCall(cl, c02RLNew(ok))
-		if stalled(r) || (T > 0 && r.took >= T/2) { // an immediate handler that needed half the server timeout: starved machine
+		if stalled(r) || (T > 0 && r.took >= T/2) || r.took >= 2*time.Second { // an immediate handler that needed half the server timeout (or 2 s): starved machine
 			cls["machine-stalled"] = true
 			v.Excluded = true
 			return v
@@ -463,6 +477,7 @@ func c02RLGen(rt *rapid.T) c02RLCase {
 	c.A = rapid.SampledFrom([]int{0, 0, 0, 1, 2}).Draw(rt, "auth")
 	c.X = rapid.SampledFrom([]int{0, 0, 1, 2}).Draw(rt, "added")
 	c.O = rapid.IntRange(0, 3).Draw(rt, "option") == 0
+	c.S = rapid.IntRange(0, 3).Draw(rt, "shedding") == 0
 	if c.K == "err" || c.K == "blockerr" {
 		c.Code = rapid.SampledFrom([]int{1, 2, 3, 4, 5, 7, 9, 13, 14, 16}).Draw(rt, "code")
 	}
